@@ -26,6 +26,7 @@
 #include "vsim.h"
 #include "colvarbias_restraint.h"
 #include "colvarbias_abmd.h"
+#include "colvargrid.h"
 
 struct c06_session : public vsim_session {
   std::ostringstream cap;
@@ -49,6 +50,20 @@ struct c06_session : public vsim_session {
   {
     std::ostream &o = *out;
     if (cmd == "capture") { attach(); return true; }
+    if (cmd == "tidump") {
+      // TI estimator attached to a bias (colvarbias_ti): per bin the number of samples and the SUM of the collected forces
+      for (colvarbias *b : proxy->colvars->biases) {
+        colvarbias_ti *ti = dynamic_cast<colvarbias_ti *>(b);
+        if (!ti || !ti->ti_avg_forces) continue;
+        o << "TID " << b->name << " it=" << cvm::step_absolute();
+        std::vector<int> ix = ti->ti_count->new_index();
+        for ( ; ti->ti_count->index_ok(ix); ti->ti_count->incr(ix)) {
+          o << " " << ti->ti_count->value(ix) << ":" << vs_hex(ti->ti_avg_forces->value(ix));
+        }
+        o << "\n";
+      }
+      return true;
+    }
     if (cmd == "rdump") {
       // log lines since the last dump
       std::string txt = cap.str(); cap.str(""); cap.clear();
